@@ -40,8 +40,28 @@ class State(_train.Listener):
         self.model = None
         self.first_bad = None
         self.steps = 0
+        self.bad_val = None
+        # every validation score the path computes (they decide its stopping and its best weights): a nan there, while the
+        # weights are finite, is a nan "produced and then silently turned into" an aborted path
+        from ..attach import Patcher
+        import gemclus.sparse._base_sparse as bs
+        self.patcher = Patcher()
+        orig = bs.compute_val_score
+        st = self
+
+        def compute_val_score(clf, X, y, batch_size, gemini_objective):
+            res = orig(clf, X, y, batch_size, gemini_objective)
+            if clf is st.model:
+                st.ctx.count("validation_scores_checked")
+                if st.bad_val is None and not bool(np.all(np.isfinite(np.asarray(res, dtype=float)))) \
+                        and all(bool(np.all(np.isfinite(w))) for w in clf._get_weights()):
+                    st.bad_val = {"score": repr(res)[:60], "batch_size": batch_size, "n": len(X)}
+            return res
+        compute_val_score.__wrapped__ = orig
+        self.patcher.rebind(orig, compute_val_score)
 
     def close(self):
+        self.patcher.restore()
         self.tap.close()
 
     def step_after(self, model, opt, params, grads):
@@ -201,7 +221,7 @@ def run_case(case, ctx, st):
     ctx.case = dict(case, estimator=name, families=fams, params=params, n=n, d=d)
     ctx.count("runs")
     est = gen.build_estimator(name, params)
-    st.model, st.first_bad, st.steps = est, None, 0
+    st.model, st.first_bad, st.steps, st.bad_val = est, None, 0, None
     use_path = name in gen.SPARSE and (i // (len(names) * len(FAMILIES))) % 2 == 0 and d >= 2
     mech_tag = f"{name}/{'+'.join(fams)}"
     hist = None
@@ -224,6 +244,8 @@ def run_case(case, ctx, st):
     bad = []
     if st.first_bad is not None:
         bad.append(("parameter-nonfinite-during-training", st.first_bad))
+    if st.bad_val is not None:
+        bad.append(("path-validation-score-nonfinite-with-finite-weights", st.bad_val))
     try:
         if name != "Kauri":
             for j, w in enumerate(est._get_weights()):
